@@ -23,6 +23,8 @@ const pkgGrouperPlugins = "pkg/podgrouper/podgrouper/plugins"
 func runC18(c *Ctx) {
 	runC18NamespacedLists(c)
 	runC18LwsLeaderReady(c)
+	runC18LabelPrecedence(c)
+	runC18GroupBeforeAssignment(c)
 	runC18OwnerIdentity(c)
 	runC18Wiring(c)
 	runC18LookupErrors(c)
@@ -606,4 +608,242 @@ func runC18LwsLeaderReady(c *Ctx) {
 			"the LeaderReady minimum "+k.Value.String()+" can be answered for a pod that is already scheduled: leader and workers then compute different PodGroups for the same workload and the stored object is rewritten on every reconcile of either")
 	}
 	c.Floor("O11", "RET constant minimums of calcLeaderReadyMinAvailable", n, 1)
+}
+
+// runC18LabelPrecedence (O12): where a PodGroup attribute can come from a label of the owner or from the same label
+// of the pod, the owner's label wins. Pods of one workload may carry different labels (several pod templates, a pod
+// relabelled at run time); the owner is the same for all of them, so "owner first" is what makes the PodGroup the
+// same whichever pod is reconciled. Two parts per pair of lookups with the same key in one function: (a) the
+// non-pod lookup is never evaluated after the pod's, (b) a value read from the pod's label is returned / stored /
+// merged only where the other lookup has reported "not found" (not required when the owners are scanned in a loop).
+func runC18LabelPrecedence(c *Ctx) {
+	p, fx := c.P, c.Fx
+	isPodRooted := func(v ssa.Value) bool {
+		for i := 0; i < 8 && v != nil; i++ {
+			switch x := v.(type) {
+			case *ssa.Call:
+				if len(x.Call.Args) == 0 && !x.Call.IsInvoke() {
+					return false
+				}
+				if x.Call.IsInvoke() {
+					v = x.Call.Value
+				} else {
+					v = x.Call.Args[0]
+				}
+			case *ssa.FieldAddr:
+				v = x.X
+			case *ssa.Field:
+				v = x.X
+			case *ssa.UnOp:
+				v = x.X
+			case *ssa.Parameter:
+				return strings.HasSuffix(typeKey(x.Type()), "k8s.io/api/core/v1.Pod")
+			default:
+				return false
+			}
+		}
+		return false
+	}
+	type lk struct {
+		in  *ssa.Lookup
+		pod bool
+		key string
+	}
+	pairs := 0
+	for _, fn := range p.FuncsIn(pkgGrouperPlugins + "/defaultgrouper") {
+		var lks []lk
+		for _, b := range fn.Blocks {
+			for _, in := range b.Instrs {
+				l, ok := in.(*ssa.Lookup)
+				if !ok || !l.CommaOk || typeKey(l.X.Type()) != "map[string]string" {
+					continue
+				}
+				lks = append(lks, lk{l, isPodRooted(l.X), termOf(l.Index).String()})
+			}
+		}
+		for _, pl := range lks {
+			if !pl.pod {
+				continue
+			}
+			for _, ol := range lks {
+				if ol.pod || ol.key != pl.key {
+					continue
+				}
+				pairs++
+				// (a) order
+				after := false
+				if ol.in.Block() == pl.in.Block() {
+					after = instrBefore(pl.in, ol.in)
+				}
+				seen := map[*ssa.BasicBlock]bool{}
+				var walk func(b *ssa.BasicBlock)
+				walk = func(b *ssa.BasicBlock) {
+					for _, s := range b.Succs {
+						if seen[s] {
+							continue
+						}
+						seen[s] = true
+						if s == ol.in.Block() {
+							after = true
+						}
+						walk(s)
+					}
+				}
+				walk(pl.in.Block())
+				c.Check(!after, "O12", "MPT", fmt.Sprintf("%s: label %s is looked up on the owner before it is looked up on the pod", funcKey(fn), pl.key), instrPos(pl.in), "the owner's lookup is not reachable from the pod's",
+					"the label "+pl.key+" is read from the pod before it is read from the owner: two pods of one workload with different values of the label compute different PodGroups, the stored object follows whichever pod was reconciled last and every reconcile of a sibling rewrites it")
+				// (b) use of the pod's value
+				if loopHeaderOf(ol.in.Block()) != nil {
+					continue
+				}
+				var notFound string
+				for _, r := range *ol.in.Referrers() {
+					if e, ok := r.(*ssa.Extract); ok && e.Index == 1 {
+						notFound = termOf(e).String()
+					}
+				}
+				has := func(fs FactSet) bool {
+					_, ok := fs.find(func(f Fact) bool { return !f.Pol && f.T.String() == notFound })
+					return ok
+				}
+				var bad ssa.Instruction
+				seenV := map[ssa.Value]bool{}
+				var uses func(v ssa.Value)
+				uses = func(v ssa.Value) {
+					if seenV[v] || v.Referrers() == nil {
+						return
+					}
+					seenV[v] = true
+					for _, r := range *v.Referrers() {
+						switch x := r.(type) {
+						case *ssa.Extract:
+							if x.Index == 0 {
+								uses(x)
+							}
+						case *ssa.Phi:
+							for i, e := range x.Edges {
+								if e == v {
+									pred := x.Block().Preds[i]
+									if !has(fx.FactsAt(pred.Instrs[len(pred.Instrs)-1])) {
+										bad = pred.Instrs[len(pred.Instrs)-1]
+									}
+								}
+							}
+						case *ssa.Return, *ssa.MapUpdate, *ssa.Store:
+							if !has(fx.FactsAt(r)) {
+								bad = r
+							}
+						}
+					}
+				}
+				uses(pl.in)
+				pos := instrPos(pl.in)
+				if bad != nil {
+					pos = instrPos(bad)
+				}
+				c.Check(bad == nil, "O12", "DOM", fmt.Sprintf("%s: the pod's value of label %s is used only where the owner has none", funcKey(fn), pl.key), pos, "not-found on the owner dominates every use of the pod's value",
+					"the pod's value of label "+pl.key+" can be taken although the owner carries the label: pods of one workload with different label values compute different PodGroups")
+			}
+		}
+	}
+	c.Floor("O12", "MPT owner/pod lookups of one label", pairs, 5)
+}
+
+// runC18GroupBeforeAssignment (O13): the pod is pointed at its PodGroup (annotation / sub-group label patch) only
+// after the PodGroup was applied to the cluster without error. The reconciler's first guard returns early for a pod
+// that already carries the annotation and has no owner: annotated first and the PodGroup's creation failing, such a
+// pod is never looked at again and its PodGroup never exists — the outcome depends on the fault history, not on the
+// workload, and repeating the reconcile does not repair it.
+func runC18GroupBeforeAssignment(c *Ctx) {
+	f := c.Anchor("O13", "pkg/podgrouper", "PodReconciler", "Reconcile")
+	if f == nil {
+		return
+	}
+	n := 0
+	for _, h := range c.P.deepFind(f, isInvokeNamed("Patch"), 2) {
+		site := h.In
+		if len(h.Chain) > 0 {
+			site = h.Chain[0]
+		}
+		if site.Parent() != f {
+			continue
+		}
+		n++
+		ok, why := succeededBefore(c.Fx, f, site, func(in ssa.Instruction) bool {
+			cc, isCall := in.(ssa.CallInstruction)
+			if !isCall {
+				return false
+			}
+			if cal := calleeOf(cc); cal != nil {
+				return cal.Name() == "ApplyToCluster"
+			}
+			return cc.Common().IsInvoke() && cc.Common().Method.Name() == "ApplyToCluster"
+		})
+		c.Check(ok, "O13", "MPT", funcKey(f)+": the pod is assigned to its PodGroup only after the PodGroup was applied without error", instrPos(site), "every path to the pod patch passes ApplyToCluster and the test of its error",
+			"the pod can be annotated with its PodGroup before the PodGroup exists ("+why+"): when the creation then fails, an owner-less pod is skipped by every later reconcile (it already carries the annotation) and its PodGroup is never created")
+	}
+	c.Floor("O13", "DOM pod patches of the pod reconciler", n, 1)
+}
+
+// succeededBefore: every path from fn's entry to site executes a call satisfying isStep, and every path from such a
+// call to site takes a branch that establishes "the step's error is nil" — the error being the call's (last) result,
+// tested directly or through the local cell it is stored into right after the call.
+func succeededBefore(fx *Facts, fn *ssa.Function, site ssa.Instruction, isStep func(ssa.Instruction) bool) (bool, string) {
+	isSite := func(in ssa.Instruction) bool { return in == site }
+	if _, path, found := reachAvoiding([]cfgPos{entryPos(fn)}, isSite, isStep, nil); found {
+		return false, "reached without the step: " + pathStr(path)
+	}
+	steps := 0
+	for _, b := range fn.Blocks {
+		for i, in := range b.Instrs {
+			if !isStep(in) {
+				continue
+			}
+			steps++
+			v, isVal := in.(ssa.Value)
+			if !isVal {
+				return false, "the step has no result"
+			}
+			// the values that stand for the step's error
+			errTerms := map[string]bool{}
+			var ev ssa.Value = v
+			if tup, isTup := v.Type().(*types.Tuple); isTup {
+				ev = nil
+				for _, r := range *v.Referrers() {
+					if e, ok := r.(*ssa.Extract); ok && e.Index == tup.Len()-1 {
+						ev = e
+					}
+				}
+			}
+			if ev == nil {
+				return false, "the step's error is dropped"
+			}
+			errTerms[termOf(ev).String()] = true
+			for _, r := range *ev.Referrers() {
+				if st, ok := r.(*ssa.Store); ok && st.Val == ev && st.Block() == b {
+					if a, isA := st.Addr.(*ssa.Alloc); isA {
+						errTerms["load("+termOf(a).String()+")"] = true
+					}
+				}
+			}
+			nilTested := func(f Fact) bool {
+				t := f.T
+				if t.Op != "bin" || len(t.Args) != 2 || !(t.Args[1].isNilConst() || t.Args[0].isNilConst()) {
+					return false
+				}
+				x := t.Args[0]
+				if x.isNilConst() {
+					x = t.Args[1]
+				}
+				return errTerms[x.String()] && (t.Name == "==") == f.Pol
+			}
+			_, path, found := reachAvoiding([]cfgPos{{B: b, I: i + 1}}, isSite, nil, func(from, to *ssa.BasicBlock) bool {
+				return !fx.edgeEstablishes(from, to, nilTested)
+			})
+			if found {
+				return false, "reached after the step without its error having been found nil: " + pathStr(path)
+			}
+		}
+	}
+	return steps > 0, "no such step"
 }
